@@ -207,7 +207,7 @@ func NewControl(
 func (ctl *Control) Start() {
 	loginRespMsg := &msg.LoginResp{
 		Version: version.Full(),
-		RunID:   ctl.runID,
+		RunID:   ctl.loginMsg.RunID,
 		Error:   "",
 	}
 	_ = msg.WriteMsg(ctl.conn, loginRespMsg)
@@ -474,7 +474,7 @@ func (ctl *Control) RegisterProxy(pxyMsg *msg.NewProxy) (remoteAddr string, err 
 	userInfo := plugin.UserInfo{
 		User:  ctl.loginMsg.User,
 		Metas: ctl.loginMsg.Metas,
-		RunID: ctl.runID,
+		RunID: ctl.loginMsg.RunID,
 	}
 
 	// NewProxy will return an interface Proxy.
